@@ -47,6 +47,15 @@ CLAIMED["C15"] = ("codec", "5/C15, 4.8",
     "Exhaustive over the stated domain: TLC evaluates, for every byte string of length <= 5 (quick) / <= 7 (thorough) over {a, CR, LF, C3, A9, FF}, that the transcription of decode/decode_eof equals an independent reference splitter, and the encode / round-trip law for every tuple of <= 3 valid strings. Every one of these vectors is executed on the real LinesCodec and compared, observed outputs are re-validated by TLC, and random longer strings go through the cross-checked reference.",
     "Trusts TLC; UTF-8 is modelled on the 6-byte alphabet only; random longer strings are judged by the Rust transliteration of the reference (cross-checked on every vector).")
 
+CLAIMED["C20"] = ("bytestring", "5/C20, 4.11",
+    "explicit TLA+ spec (Utf8.tla) + TLC exhaustive vector generation + conformance replay on bytestring (vbytestring) + TLC predicate-mode validation of recorded observations (Utf8Trace.tla)",
+    "TLC enumerates every byte string of length <= 4 (quick) / <= 5 (thorough) over a 17/19-byte alphabet touching every row and limit of Unicode Table 3-7, proves the table DFA equal to the scalar-value/shortest-form definition at every state (5 mis-transcription NEG configs rejected), and every vector is executed on the real ByteString through all constructors, split_at at every index and slice_ref over every sub-slice; observations are judged by TLC (C20_ObservedAgrees). str parity of Display/Hash/Ord/String conversion is differential against std.",
+    "Trusts TLC and the vector plumbing; str-parity clauses (Display/Hash/Ord/conversion) use std as oracle (differential); strings longer than 5 bytes are not enumerated.")
+CLAIMED["C19"] = ("connect", "5/C19, 4.10",
+    "explicit TLA+ spec (Connect.tla) + TLC exhaustive vector generation + conformance replay on actix-tls connect services (vconnect) + TLC predicate-mode validation of recorded calls (ConnectTrace.tla)",
+    "TLC checks a mechanism model of ResolverService/TcpConnectorFut/TLS connectors against the declarative property C19_Holds for every input vector (address lists 0..4/0..5 x live/refused/unreachable/IPv6, host kinds, ports, pre-set constructors, resolver outcomes, local bind; 2 TLS libraries x 13 names x issuer), 9 wrong-design NEG configs rejected; every vector is executed on the real services against loopback listeners, closed ports, logging resolvers and in-process TLS servers, and every recorded call is judged by TLC with the same predicate. TLS payload integrity is differential.",
+    "Trusts TLC, the loopback network stack, rcgen/rustls/openssl for certificate validation; the default resolver is exercised for localhost only; payload echo is differential.")
+
 NOT_YET = "check not built yet in this round; the specification for it is planned in DESIGN.md section 5"
 
 
